@@ -268,7 +268,7 @@ CURLcode curl_easy_perform(CURL *c) { FakeCurl *f = c; struct curl_slist *h; siz
 
 /* ---------------------------------------------------------------- service level */
 #define MAXH 4096
-static KSI_CTX *ctx; static KSI_AsyncService *as; static KSI_AsyncHandle *held[MAXH];
+static KSI_CTX *ctx; static KSI_AsyncService *as; static KSI_AsyncHandle *held[MAXH]; static KSI_AsyncHandle *kept[MAXH];   /* kept: returned by RUNKEEP, owned by the driver, may be READDed */
 static KSI_AsyncService *svc[8]; static int nsvc = 0;
 static KSI_AsyncClient *tc; static int owned[MAXH]; /* held[i] is owned by the caller (bare TCP mode) or borrowed from the service */
 
@@ -278,7 +278,7 @@ static void bs_free_all(void);
 /* ADDXS: the handle borrows the source signature and the publication record, so they live here until the handle has been returned */
 static KSI_Signature *xs_sig[MAXH]; static KSI_PublicationRecord *xs_pub[MAXH]; static unsigned char *xs_ser[MAXH]; static size_t xs_len[MAXH];
 static void xs_free(long t) { if (t < 0 || t >= MAXH) return; KSI_Signature_free(xs_sig[t]); xs_sig[t] = NULL; KSI_PublicationRecord_free(xs_pub[t]); xs_pub[t] = NULL; KSI_free(xs_ser[t]); xs_ser[t] = NULL; }
-static void free_all(void) { int i; bs_free_all(); for (i = 0; i < 32; i++) { KSI_Signature_free(slots[i]); slots[i] = NULL; } nsvc = 0; memset(svc, 0, sizeof(svc)); for (i = 0; i < MAXH; i++) { if (owned[i]) KSI_AsyncHandle_free(held[i]); held[i] = NULL; owned[i] = 0; } KSI_AsyncService_free(as); as = NULL; KSI_AsyncClient_free(tc); tc = NULL; for (i = 0; i < MAXH; i++) xs_free(i); KSI_CTX_free(ctx); ctx = NULL; }
+static void free_all(void) { int i; bs_free_all(); for (i = 0; i < 32; i++) { KSI_Signature_free(slots[i]); slots[i] = NULL; } nsvc = 0; memset(svc, 0, sizeof(svc)); for (i = 0; i < MAXH; i++) { if (owned[i]) KSI_AsyncHandle_free(held[i]); held[i] = NULL; owned[i] = 0; KSI_AsyncHandle_free(kept[i]); kept[i] = NULL; } KSI_AsyncService_free(as); as = NULL; KSI_AsyncClient_free(tc); tc = NULL; for (i = 0; i < MAXH; i++) xs_free(i); KSI_CTX_free(ctx); ctx = NULL; }
 
 /* sub-service calls made by the HA service (net_ha.o -> net_async.o) are interposed too: they are the linearization points of C15 */
 static int svc_index(KSI_AsyncService *s) { int i; if (s == as) return -1; for (i = 0; i < nsvc; i++) if (svc[i] == s) return i; if (nsvc < 8) { svc[nsvc] = s; return nsvc++; } return 99; }
@@ -346,6 +346,10 @@ static void print_handle(KSI_AsyncHandle *h) {
 		printf(" sig=%d", rc);
 		if (rc == KSI_OK && KSI_Signature_getDocumentHash(sig, &in) == KSI_OK) { const unsigned char *imp; size_t n; KSI_DataHash_getImprint(in, &imp, &n); printf(" sighash="); hx_print(imp, n); }
 		KSI_Signature_free(sig);
+	} else if (st == KSI_ASYNC_STATE_ERROR && !extending) {
+		/* a request handed back with an error must not yield a signature: esig=<rc of KSI_AsyncHandle_getSignature> (anything but 0x0 is fine) */
+		KSI_Signature *sig = NULL; int rc = KSI_AsyncHandle_getSignature(h, &sig);
+		printf(" esig=0x%x", rc); KSI_Signature_free(sig);
 	} else if (st == KSI_ASYNC_STATE_PUSH_CONFIG_RECEIVED) {
 		KSI_Config *cfg = NULL; KSI_AsyncHandle_getConfig(h, &cfg); print_cfg(cfg);
 	}
@@ -616,13 +620,18 @@ int main(void) {
 			if (rc == KSI_OK) { KSI_AsyncHandle_setRequestCtx(h, (void *)(size_t)(tag + 1), NULL); rc = KSI_AsyncService_addRequest(as, h); }
 			if (rc == KSI_OK) { held[tag] = h; KSI_AsyncHandle_getRequestId(h, &id); } else KSI_AsyncHandle_free(h);
 			printf("R add tag=%ld rc=0x%x id=%llu\n", tag, rc, (unsigned long long)id);
-		} else if (!strcmp(tok[0], "RUN")) {
-			KSI_AsyncHandle *h = NULL; size_t waiting = 0, pending = 0, received = 0; int rc;
+		} else if (!strcmp(tok[0], "READD")) {
+			/* READD <tag>: the handle a RUNKEEP returned for <tag> is submitted again (handles may be reused; the request gets a new id) */
+			long tag = atol(tok[1]); int rc = KSI_INVALID_ARGUMENT; KSI_uint64_t id = 0;
+			if (tag >= 0 && tag < MAXH && kept[tag] != NULL) { rc = KSI_AsyncService_addRequest(as, kept[tag]); if (rc == KSI_OK) { held[tag] = kept[tag]; kept[tag] = NULL; KSI_AsyncHandle_getRequestId(held[tag], &id); } }
+			printf("R add tag=%ld rc=0x%x id=%llu\n", tag, rc, (unsigned long long)id);
+		} else if (!strcmp(tok[0], "RUN") || !strcmp(tok[0], "RUNKEEP")) {
+			KSI_AsyncHandle *h = NULL; size_t waiting = 0, pending = 0, received = 0; int rc; int keep = !strcmp(tok[0], "RUNKEEP");
 			rc = KSI_AsyncService_run(as, &h, &waiting);
 			KSI_AsyncService_getPendingCount(as, &pending); KSI_AsyncService_getReceivedCount(as, &received);
 			printf("R run rc=0x%x waiting=%zu pending=%zu received=%zu", rc, waiting, pending, received);
 			if (h != NULL) { const void *tag = NULL; int st = -1; print_handle(h); KSI_AsyncHandle_getState(h, &st); KSI_AsyncHandle_getRequestCtx(h, &tag);
-				if (st != KSI_ASYNC_STATE_ERROR_NOTICE && st != KSI_ASYNC_STATE_PUSH_CONFIG_RECEIVED && tag && (size_t)tag - 1 < MAXH && held[(size_t)tag - 1] == h) { held[(size_t)tag - 1] = NULL; KSI_AsyncHandle_free(h); xs_free((long)(size_t)tag - 1); h = NULL; }
+				if (st != KSI_ASYNC_STATE_ERROR_NOTICE && st != KSI_ASYNC_STATE_PUSH_CONFIG_RECEIVED && tag && (size_t)tag - 1 < MAXH && held[(size_t)tag - 1] == h) { held[(size_t)tag - 1] = NULL; if (keep && xs_sig[(size_t)tag - 1] == NULL) { KSI_AsyncHandle_free(kept[(size_t)tag - 1]); kept[(size_t)tag - 1] = h; h = NULL; } KSI_AsyncHandle_free(h); xs_free((long)(size_t)tag - 1); h = NULL; }
 				KSI_AsyncHandle_free(h); }
 			else printf(" h=-");
 			printf("\n");
